@@ -8,3 +8,9 @@ def panic_jobs(tier):
 
 def tamper_jobs(tier):
     return []
+
+def key_jobs(tier): return []
+def footer_jobs(tier): return []
+def assertion_jobs(tier): return []
+def confusion_jobs(tier): return []
+def spec_jobs(tier): return []
